@@ -71,7 +71,10 @@ def main():
             if data == "NO-RESPONSE":
                 sig = "no-response"
             else:
-                sig = semtok.check_doc(data, d["hl"], d["err"], legend, class_table, kw_default)
+                sig = None if d["hl"] is None else semtok.check_doc(data, d["hl"], d["err"], legend, class_table, kw_default)
+                if sig is None and not d["err"]:
+                    # an oracle that owes nothing to the implementation's own token stream: the comments of the text
+                    sig = semtok.comment_oracle(d["text"], data, legend)
             nerr += 1 if d["err"] else 0
             if sig:
                 rep.add("semtok:" + sig, labels=d["labels"],
